@@ -40,7 +40,8 @@ CHECKS = {
             ASSUME + "scipy.stats closed forms per family in (shapes, loc, scale) parameterisation are assumed (bounded numerical comparison in vf/rt/C05.py).", TECH, "DESIGN.md 3 C05"),
     "C06": ("other",
             "Deductive: GlobalHierarchicalModel.pdf factorisation for every structure of 1-4 variables and for a SYMBOLIC number of variables (loop invariant), non-finite rejection; the integrands/ranges handed to nquad by "
-            "cdf, marginal_pdf, marginal_cdf (argument reordering is a bijection, ranges on the right variable) for all 2-D/3-D structures; marginal_icdf (exact / Monte-Carlo n and column). Bounded: numerical agreement.",
+            "cdf, marginal_pdf, marginal_cdf (argument reordering is a bijection, ranges on the right variable; entry r of the result is the quadrature value of ITS OWN point, by loop invariant) for all 2-D/3-D structures; "
+            "marginal_icdf (exact / Monte-Carlo n and column); the pdf / cdf contracts of every family (value, no NaN, caller's array untouched) that the DistLike interface stands for. Bounded: numerical agreement.",
             ASSUME + "nquad computes the iterated integral; 'integrates to one' and cdf = integral of pdf then follow by Fubini (paper).", TECH + " + bounded run-time contracts", "DESIGN.md 3 C06"),
     "C07": ("proof",
             "draw_sample of every family (same parameter map as cdf, size, caller's random_state), _get_rvs_size, ConditionalDistribution.draw_sample and GlobalHierarchicalModel.draw_sample for every structure of 1-4 "
